@@ -18,6 +18,7 @@ pub fn def() -> PropDef {
         panic_is_violation: false,
         rule: "run = seeded program mixing local commits, empty commits, merges, gossip, forks, actor switches, isolation and clean restarts; every change is checked at creation against the creating replica's pre-state (seq, start_op, deps) and after every event heads = maximal applied changes; non-trivial = run has a merge/delivery between two commits of one actor, an isolated commit, or an actor switch; distinct by digest of the change DAG shape",
         custom: None,
+        abort_prone: false,
         probes: &["probe.merge_between_own_commits", "probe.isolated_commit", "probe.actor_switch_commit", "probe.empty_change_checked", "probe.changes_checked"],
         fault_kinds: &["fault.reorder", "fault.dup", "fault.loss", "fault.crash.clean"],
     }
